@@ -300,45 +300,47 @@ def run(ctx) -> None:
     pv = prog.function("cli._parse_version_tags")
     ctx.visit(pv.fq)
     rets = [n for n in walk_no_nested(pv.node) if isinstance(n, ast.Return)]
-    ctx.require(len(rets) == 1, "_parse_version_tags has several return statements")
+    decided_pvt = parse_version_tags_eval(ctx, "R3")
+    ctx.require(decided_pvt or len(rets) == 1, "_parse_version_tags has several return statements")
     lc = rets[0].value
-    if isinstance(lc, ast.Name):
-        lc = shapes.loop_as_listcomp(pv, lc.id, prog) or shapes.resolve_alias(pv, lc)
-    ctx.require(isinstance(lc, ast.ListComp) and len(lc.generators) == 1, "_parse_version_tags is neither a list comprehension nor an accumulator loop")
-    g = lc.generators[0]
-    p_tags, p_pat, p_new = pv.params[0], pv.params[1], pv.params[2]
-    ctx.check("R3", unparse(g.iter) == p_tags and isinstance(g.target, ast.Name) and unparse(lc.elt) == g.target.id,
-              "_parse_version_tags returns the tags themselves, taken from all_tags", "cli._parse_version_tags: result elements are not the listed tags",
-              unparse(lc), loc=pv.loc(lc))
-    if not g.ifs:
-        ctx.bad("R3", "cli._parse_version_tags: tags are not filtered by the version pattern",
-                f"`{unparse(lc)[:80]}` keeps every tag: tags that do not match the pattern take part in the comparison (and can break it)", loc=pv.loc(lc),
-                what="_parse_version_tags: filter is (v2version if is_new_pattern else v1version).is_valid")
-    valid_calls = [c_ for t_ in g.ifs for c_ in ast.walk(t_) if isinstance(c_, ast.Call) and isinstance(c_.func, ast.Attribute) and c_.func.attr == "is_valid"]
-    if g.ifs and not (len(g.ifs) == 1 and isinstance(g.ifs[0], ast.Call)):
-        # a compound filter: it must be equivalent to the validity test alone
-        ctx.require(len(valid_calls) == 1, "_parse_version_tags filter shape changed")
+    if not decided_pvt:
+        if isinstance(lc, ast.Name):
+            lc = shapes.loop_as_listcomp(pv, lc.id, prog) or shapes.resolve_alias(pv, lc)
+        ctx.require(isinstance(lc, ast.ListComp) and len(lc.generators) == 1, "_parse_version_tags is neither a list comprehension nor an accumulator loop")
+        g = lc.generators[0]
+        p_tags, p_pat, p_new = pv.params[0], pv.params[1], pv.params[2]
+        ctx.check("R3", unparse(g.iter) == p_tags and isinstance(g.target, ast.Name) and unparse(lc.elt) == g.target.id,
+                  "_parse_version_tags returns the tags themselves, taken from all_tags", "cli._parse_version_tags: result elements are not the listed tags",
+                  unparse(lc), loc=pv.loc(lc))
+        if not g.ifs:
+            ctx.bad("R3", "cli._parse_version_tags: tags are not filtered by the version pattern",
+                    f"`{unparse(lc)[:80]}` keeps every tag: tags that do not match the pattern take part in the comparison (and can break it)", loc=pv.loc(lc),
+                    what="_parse_version_tags: filter is (v2version if is_new_pattern else v1version).is_valid")
+        valid_calls = [c_ for t_ in g.ifs for c_ in ast.walk(t_) if isinstance(c_, ast.Call) and isinstance(c_.func, ast.Attribute) and c_.func.attr == "is_valid"]
+        if g.ifs and not (len(g.ifs) == 1 and isinstance(g.ifs[0], ast.Call)):
+            # a compound filter: it must be equivalent to the validity test alone
+            ctx.require(len(valid_calls) == 1, "_parse_version_tags filter shape changed")
 
-        def _cls(leaf: ast.AST) -> T.Tuple[str, bool]:
-            if leaf is valid_calls[0]:
-                return "VALID", True
-            raise AnalysisError(f"C09/R3: filter leaf not enumerated: {unparse(leaf)[:60]}")
-        fbf = BF.true()
-        for t_ in g.ifs:
-            fbf = fbf & shapes.bool_expr_bf(t_, _cls)
-        ctx.check("R3", fbf.equiv(BF.var("VALID")), "_parse_version_tags keeps a tag iff it is valid for the pattern",
-                  "cli._parse_version_tags: tags are not filtered by the version pattern", f"kept iff {fbf.to_dnf()}", loc=pv.loc(lc))
-        g = ast.comprehension(target=g.target, iter=g.iter, ifs=[valid_calls[0]], is_async=0)
-    if g.ifs:
-        fc = g.ifs[0]
-        eng = fc.func.value if isinstance(fc.func, ast.Attribute) else None
-        eng_def = shapes.resolve_alias(pv, eng) if eng is not None else None
-        eng_ok = isinstance(fc.func, ast.Attribute) and fc.func.attr == "is_valid" and isinstance(eng_def, ast.IfExp) \
-            and unparse(eng_def.test) == p_new and unparse(eng_def.body) == "v2version" and unparse(eng_def.orelse) == "v1version"
-        ctx.check("R3", eng_ok, "_parse_version_tags: filter is (v2version if is_new_pattern else v1version).is_valid",
-                  "cli._parse_version_tags: tags are not filtered by the pattern's own engine", unparse(fc), loc=pv.loc(fc))
-        ctx.check("R3", [unparse(a) for a in fc.args] == [g.target.id if isinstance(g.target, ast.Name) else "?", p_pat],
-                  "_parse_version_tags: is_valid(tag, version_pattern)", "cli._parse_version_tags: is_valid arguments changed", unparse(fc), loc=pv.loc(fc))
+            def _cls(leaf: ast.AST) -> T.Tuple[str, bool]:
+                if leaf is valid_calls[0]:
+                    return "VALID", True
+                raise AnalysisError(f"C09/R3: filter leaf not enumerated: {unparse(leaf)[:60]}")
+            fbf = BF.true()
+            for t_ in g.ifs:
+                fbf = fbf & shapes.bool_expr_bf(t_, _cls)
+            ctx.check("R3", fbf.equiv(BF.var("VALID")), "_parse_version_tags keeps a tag iff it is valid for the pattern",
+                      "cli._parse_version_tags: tags are not filtered by the version pattern", f"kept iff {fbf.to_dnf()}", loc=pv.loc(lc))
+            g = ast.comprehension(target=g.target, iter=g.iter, ifs=[valid_calls[0]], is_async=0)
+        if g.ifs:
+            fc = g.ifs[0]
+            eng = fc.func.value if isinstance(fc.func, ast.Attribute) else None
+            eng_def = shapes.resolve_alias(pv, eng) if eng is not None else None
+            eng_ok = isinstance(fc.func, ast.Attribute) and fc.func.attr == "is_valid" and isinstance(eng_def, ast.IfExp) \
+                and unparse(eng_def.test) == p_new and unparse(eng_def.body) == "v2version" and unparse(eng_def.orelse) == "v1version"
+            ctx.check("R3", eng_ok, "_parse_version_tags: filter is (v2version if is_new_pattern else v1version).is_valid",
+                      "cli._parse_version_tags: tags are not filtered by the pattern's own engine", unparse(fc), loc=pv.loc(fc))
+            ctx.check("R3", [unparse(a) for a in fc.args] == [g.target.id if isinstance(g.target, ast.Name) else "?", p_pat],
+                      "_parse_version_tags: is_valid(tag, version_pattern)", "cli._parse_version_tags: is_valid arguments changed", unparse(fc), loc=pv.loc(fc))
 
     from checks.c01 import full_match_rule
     for eng in ("v2version", "v1version"):
@@ -356,6 +358,15 @@ def run(ctx) -> None:
         ctx.check("R4", len(pvi) == 1 and [unparse(a) for a in pvi[0].args] == iv.params[:2],
                   f"{modname}.is_valid parses (version_str, raw_pattern) with parse_version_info",
                   f"{modname}.is_valid: does not validate by parsing with the given pattern", "", loc=iv.loc())
+        if len(pvi) == 1:
+            icfg_ = cfgs.get(iv.fq)
+            pn_ = icfg_.node_containing(pvi[0])
+            wo_ = icfg_.reachable(blocked_nodes=[pn_]) if pn_ is not None else set()
+            loose = [n for n in icfg_.nodes if n.kind == "stmt" and isinstance(n.ast, ast.Return) and n.id in wo_ and not (isinstance(n.ast.value, ast.Constant) and n.ast.value.value is False)]
+            ctx.check("R4", not loose, f"{modname}.is_valid answers True only after parse_version_info accepted the text (every other return is False)",
+                      f"{modname}.is_valid: a text can be declared valid without the full parse",
+                      f"`{unparse(loose[0].ast) if loose else ''}` is reachable without passing `{unparse(pvi[0])}`: a prefix match (`1.0.1-1` for MAJOR.MINOR.PATCH) counts as a version tag, "
+                      "becomes the start version and every further update fails", loc=iv.loc(loose[0].ast) if loose else iv.loc(), witness={"tag": "1.0.1-1", "pattern": "MAJOR.MINOR.PATCH"})
         out = esc.escapes(iv.fq)
         if not out:
             ctx.ok("R4", f"{modname}.is_valid: no exception class escapes (explicit raises, datetime.date, callee escapes)")
@@ -456,6 +467,16 @@ def run(ctx) -> None:
         and shapes.flows_from(gate, tv.args[0], lambda e: isinstance(e, ast.Call) and e in gtc2)
     ctx.check("R5", ok_tv, "gate: compared tags are the pattern-valid tags of get_tags(GLOBAL)", "cli._is_valid_version: uniqueness set is not the valid tags of all branches",
               unparse(tv) if tv is not None else "", loc=gate.loc())
+    # ... valid for the pattern's own engine: the engine flag is handed on (not left to a default)
+    pvt = prog.function("cli._parse_version_tags")
+    for c in shapes.find_calls(prog, gate, pvt.fq):
+        ea = call_arg(c, pvt, pvt.params[2])
+        ctx.check("R5", ea is not None and unparse(shapes.resolve_alias(gate, ea)) == unparse(shapes.resolve_alias(gate, ast.Name(id="is_new_pattern", ctx=ast.Load()))),
+                  "gate: _parse_version_tags receives the gate's own is_new_pattern", "cli._is_valid_version: the uniqueness tags are filtered with a fixed engine",
+                  f"`{unparse(c)}`: for legacy patterns no tag counts as a version tag, an existing tag of another branch is announced again", loc=gate.loc(c),
+                  witness={"pattern": "{semver}", "tag_scope": "branch"})
+    ctx.check("R5", not any(d_ is not None for d_ in pvt.node.args.defaults), "_parse_version_tags has no default engine", "cli._parse_version_tags: the engine flag has a default",
+              "a caller that omits is_new_pattern silently filters with that engine", loc=pvt.loc())
 
 
 def listing_failure_rule(ctx, rule: str) -> None:
@@ -535,3 +556,48 @@ def tag_listing_rule(ctx, rule: str) -> None:
             continue
         ctx.check(rule, got == want, f"{fn.fq}: one tag per line of the listing (evaluated on 4 lines)", f"{fn.fq}: the tag listing is not read one tag per line",
                   f"{got!r}, expected {want!r}: part of a non-matching tag name is taken for a version tag", loc=fn.loc(), witness={"tag": "junk\u00a09.9.9"})
+
+
+def parse_version_tags_eval(ctx, rule: str) -> bool:
+    """cli._parse_version_tags evaluated with abstract engines: for a new-style pattern the result is the tags that
+    v2version.is_valid(tag, version_pattern) accepts, in listing order, for a legacy pattern those of v1version - each asked with
+    exactly these two arguments (no option that loosens the test)."""
+    from sa.model import Abstract, CannotFold, EvalError
+    prog = ctx.prog
+    pv = prog.function("cli._parse_version_tags")
+    if len(pv.params) < 3:
+        return False
+
+    class Eng(Abstract):
+        def __init__(self, name: str, accepts: T.Set[str]):
+            self.name, self.accepts, self.calls = name, accepts, []
+
+        def is_valid(self, *a: T.Any, **k: T.Any) -> bool:
+            self.calls.append((a, k))
+            return bool(a) and a[0] in self.accepts
+    tags = ["t1", "junk", "t2", "t3"]
+    wrong: T.List[str] = []
+    try:
+        for is_new in (True, False):
+            v2, v1 = Eng("v2version", {"t1", "t3"}), Eng("v1version", {"t2"})
+            env = {pv.params[0]: list(tags), pv.params[1]: "PAT", pv.params[2]: is_new, "v2version": v2, "v1version": v1, "__strict__": True}
+            try:
+                got, _ys = prog.run_body(pv, env)
+            except EvalError as ex:
+                got = f"raises: {ex}"
+            eng, other = (v2, v1) if is_new else (v1, v2)
+            want = [t for t in tags if t in eng.accepts]
+            if got != want:
+                wrong.append(f"is_new_pattern={is_new}: {got}, expected {want}")
+            if other.calls:
+                wrong.append(f"is_new_pattern={is_new}: {other.name}.is_valid is asked")
+            odd = [c for c in eng.calls if c[1] or len(c[0]) != 2 or c[0][1] != "PAT"]
+            if odd:
+                wrong.append(f"is_new_pattern={is_new}: {eng.name}.is_valid called with {odd[0][0][1:]} {odd[0][1]} instead of (tag, version_pattern)")
+    except (CannotFold, TypeError, AttributeError, KeyError, ValueError, IndexError) as ex:
+        ctx.observe(f"cli._parse_version_tags not evaluated ({type(ex).__name__}: {str(ex)[:80]})")
+        return False
+    ctx.check(rule, not wrong, "_parse_version_tags keeps exactly the tags that the pattern's own engine declares valid for (tag, version_pattern) (evaluated for both engines)",
+              "cli._parse_version_tags: tags are not filtered by <engine>.is_valid(tag, version_pattern) of the pattern's engine", "; ".join(wrong[:3]), loc=pv.loc(),
+              witness={"tag": "1.0.1-1", "pattern": "MAJOR.MINOR.PATCH"})
+    return True
